@@ -43,3 +43,27 @@ Theorem C01_reserved_separation : forall t os s, tree_wfb t = true -> run t (ini
   end.
 Proof. intros t os s Hwf Hrun. exact (reserved_separation t os s (tree_wfb_sound t Hwf) Hrun). Qed.
 Print Assumptions C01_reserved_separation.
+
+(* ---- "as told to the runtime": the runtime keeps the last cpuset it was told for every running
+   container, granted or not (TA_Pins.v).  As long as no UpdateContainer fails, these pins are
+   exactly what the granted containers are told, so no exclusive CPU occurs in another pin ... *)
+From NV Require Import TA_Pins TA_PinsProofs.
+Theorem C01_exclusive_not_in_runtime_pins_partial : forall t os s pins, tree_wfb t = true ->
+  forallb is_step os = true -> prun t (init t, ∅) os = Ok (s, pins) ->
+  forall c1 c2 g1 P, c1 <> c2 -> grants s !! c1 = Some g1 -> pins !! c2 = Some P -> g_excl g1 ## P.
+Proof. intros t os s pins Hwf. exact (pins_disjoint_from_exclusive t os s pins (tree_wfb_sound t Hwf)). Qed.
+Print Assumptions C01_exclusive_not_in_runtime_pins_partial.
+
+(* ... and with a failed update the statement is false of the faithful model (known finding K3): the
+   container loses its grant, keeps running on its old cpuset, and a later exclusive grant overlaps it.
+   The same three requests fail on the implementation. *)
+Theorem C01_exclusive_not_in_runtime_pins_refuted :
+  tree_wfb k3_tree = true /\
+  match prun k3_tree (init k3_tree, ∅) k3_ops with
+  | Ok (s, pins) =>
+      match grants s !! 2%nat, pins !! 1%nat with
+      | Some g2, Some P1 => bool_decide (g_excl g2 ∩ P1 = list_to_set [1%nat]) = true
+      | _, _ => False end
+  | Err _ => False end.
+Proof. exact stale_pin_refuted. Qed.
+Print Assumptions C01_exclusive_not_in_runtime_pins_refuted.
